@@ -2,6 +2,7 @@ CONSTANTS Streams <- MediumQ
   LenOf <- Lens
   ReadMax = 2048
   MaxReads = 3
+  Fails <- NoFail
   Cuts <- NoCuts
   D = 0
 INIT Init
